@@ -186,9 +186,9 @@ class Book:
         allowed = set(contract.inline)
         keys = {name, "%s.%s" % (cls, name)} | {"%s.%s" % (c, name) for c in (self.mro(cls) if cls else [])}
         if not (keys & allowed):
-            # a private helper (leading underscore, not a dunder) of the receiver's own class hierarchy that has no contract is inlined from the real
+            # a private helper (leading underscore(s), name-mangled ones included, not a dunder) of the receiver's own class hierarchy that has no contract is inlined from the real
             # source: extracting a block into such a helper is the most common behaviour-preserving edit and must not cost the proof
-            if cls and name.startswith("_") and not name.startswith("__"):
+            if cls and name.startswith("_") and not (name.startswith("__") and name.endswith("__")):
                 return self.find_method(cls, name)
             return None
         return self.find_method(cls, name)
